@@ -33,6 +33,11 @@
 //     of a rounding tie
 //   * termination: 3 s watchdog (hv::arm); memory safety: print_f's 'buff' is a
 //     stack array, the translation unit is compiled with ASan
+// Round 3b (wall time): this translation unit contains NO igris code (the engine is compiled from
+// igris/util/printf_impl.c and the two twin files, with the optimisation level and the sanitizers of bin/check);
+// the generator, the oracle and the dispatcher do not need -O1 - under ASan/UBSan the optimiser spent 15 of the
+// 21 s of the compile on them.
+#pragma GCC optimize("O0")
 #include "common/hv.h"
 #include <cstdarg>
 #include <climits>
